@@ -387,28 +387,69 @@ func ruleFreelist(r *core.Report, h *hubSlots, ruleID string) {
 			}
 			r.Check(afterFn && afterZero && zeroAfterFn, ruleID, core.FnName(recv)+" return to freelist", p.Pos(sd.Pos()), "the buffer is zeroed and returned only after the callback returned", "a buffer can go back to the freelist before the callback has returned (another Deliver overwrites a message the callback is still reading), or without being zeroed")
 		}
-		for _, name := range []string{"Queue.Deliver", "Queue.DeliverVec"} {
-			fn := h.fns[name]
+		// every send on the queue channel, in whichever function of the package it sits: the message sent
+		// had its Payload rebuilt from [:0]; a message that arrives as a parameter (an enqueue helper) is
+		// checked at each call site of the helper
+		for _, fn := range p.ModFuncs {
+			if fn.Pkg == nil || fn.Pkg.Pkg.Path() != core.ModPath+"/s/swarmutil" {
+				continue
+			}
+			var sent []struct {
+				v  ssa.Value
+				at ssa.Instruction
+			}
 			for _, in := range core.AllInstrs(fn) {
-				sd, ok := in.(*ssa.Send)
-				if !ok {
-					continue
-				}
-				cr := core.ClassifyChan(sd.Chan)
-				if cr.Kind != "field" || !core.SameField(cr.Field, h.queueQ) {
-					continue
+				if sd, ok := in.(*ssa.Send); ok {
+					if cr := core.ClassifyChan(sd.Chan); cr.Kind == "field" && core.SameField(cr.Field, h.queueQ) {
+						sent = append(sent, struct {
+							v  ssa.Value
+							at ssa.Instruction
+						}{sd.X, sd})
+					}
 				}
 			}
-			// every select send on queue: the message sent had its Payload rebuilt from [:0]
 			for _, sel := range core.AllSelects(fn) {
 				for _, st := range sel.States {
 					cr := core.ClassifyChan(st.Chan)
-					if st.Dir != types.SendOnly || cr.Kind != "field" || !core.SameField(cr.Field, h.queueQ) {
-						continue
+					if st.Dir == types.SendOnly && cr.Kind == "field" && core.SameField(cr.Field, h.queueQ) {
+						sent = append(sent, struct {
+							v  ssa.Value
+							at ssa.Instruction
+						}{st.Send, sel})
 					}
-					ok := rebuiltFromZero(p, st.Send, 0)
-					r.Check(ok, ruleID, core.FnName(fn)+" queue send", p.Pos(sel.Pos()), "the queued message's payload was rebuilt by appending to payload[:0]", "a recycled buffer is queued without its payload being rebuilt from length 0: old contents become visible as part of another message")
 				}
+			}
+			const good, bad = "the queued message's payload was rebuilt by appending to payload[:0]", "a recycled buffer is queued without its payload being rebuilt from length 0: old contents become visible as part of another message"
+			for _, sv := range sent {
+				if prm, isPrm := core.Through(sv.v).(*ssa.Parameter); isPrm {
+					idx := -1
+					for i, q := range fn.Params {
+						if q == prm {
+							idx = i
+						}
+					}
+					sites := 0
+					for _, caller := range p.ModFuncs {
+						for _, in := range core.AllInstrs(caller) {
+							ci, ok := in.(ssa.CallInstruction)
+							if !ok {
+								continue
+							}
+							sc := core.StaticCallee(ci.Common())
+							if sc == nil || (sc != fn && sc.Origin() != fn) || idx >= len(ci.Common().Args) {
+								continue
+							}
+							sites++
+							r.Analysed(caller)
+							r.Check(rebuiltFromZero(p, ci.Common().Args[idx], 0), ruleID, core.FnName(caller)+" queue send via "+fn.Name(), p.Pos(in.Pos()), good, bad)
+						}
+					}
+					if sites == 0 {
+						r.Undecided(ruleID, core.FnName(fn)+" queue send", p.Pos(sv.at.Pos()), "the queued message is a parameter and no call site was found")
+					}
+					continue
+				}
+				r.Check(rebuiltFromZero(p, sv.v, 0), ruleID, core.FnName(fn)+" queue send", p.Pos(sv.at.Pos()), good, bad)
 			}
 		}
 	}
